@@ -14,7 +14,8 @@ DECIDED = ("lockset/ownership premises that make `std::sync::Mutex` give exclusi
            "type is only built inside `&mut self` methods of the injector; R4.5 the injector's restore guards are gone before its MutexGuard "
            "is dropped; R4.6 nothing but the constructions mentions the MutexGuard field; R4.7 the restore guard's destructor restores on every returning "
            "path (no edge, e.g. std::thread::panicking(), on which the lock is handed over with the patch still in place); R4.8 every installation that takes a "
-           "call-count verifier resets the counter before its first effect, so the previous holder's calls are never charged to the next one")
+           "call-count verifier resets the counter before its first effect, so the previous holder's calls are never charged to the next one; R4.9 no restore guard is "
+           "constructed before its entry write has succeeded (C05 R5.8: otherwise a refused installation aborts the process instead of unwinding)")
 NOT_DECIDED = "scheduler fairness beyond 'the guard is released on every exit' (that is the OS mutex)"
 
 MUTEXGUARD = "std::sync::MutexGuard"
@@ -265,6 +266,11 @@ def run(ck, models, tier):
         # one - every installation that takes a verifier resets the counter before its first effect (C07 R7.1, library part)
         from .c07 import install_resets_counter
         install_resets_counter(ck, tm, "R4.8")
+        # ---------------- R4.9 "when the holder lets go ... by unwinding, a waiting thread gets its turn": the unwinding of a refused installation
+        # completes - no restore guard is alive while its own entry write can still be refused (C05 R5.8)
+        from .c05 import guard_only_after_entry_write
+        if g.adt:
+            guard_only_after_entry_write(ck, tm, g, patches.roots_and_roles(tm), "R4.9")
     scans.control(ck, ck.ws, "R4.1", "try_lock-call", scans.try_lock_sites)
 
     def stolen(f):
